@@ -31,14 +31,21 @@ CHECKS = {
 
 CHECKS["C01"] = dict(
     category="translation_validation",
-    text=("Proof-carrying results: every (d, a, b) returned by gjk_distance_jolt on generated pairs (all 10 collider kinds, "
-          "Margin, lattice/degenerate/constructed-gap placements) is converted to exact rationals and judged inside coqc by "
-          "dist_cert (Checker/Narrow.v); its Coq soundness theorem (Props/C01.v, over the reals, for arbitrary shape expressions) "
-          "gives for that input exactly C01: a within tau of A, b within tau of B, ||a-b|-d| <= tau, no pair of points closer "
-          "than d - tau, some pair within d + 3 tau, tau = 1e-5 L. The checker and its soundness are proved once for all inputs; "
-          "universality over inputs comes from generation. No theorem about the floating-point GJK loop itself (DESIGN section 7)."),
-    design_ref="DESIGN.md section 5, C01; section 2.3",
-    technique="Coq-proven certificate checker (separating direction + membership witnesses) evaluated by vm_compute on the implementation's outputs",
+    text=("Proof-carrying results: every (d, a, b) returned by gjk_distance_jolt on generated pairs (all 10 collider kinds, Margin, "
+          "lattice/degenerate/constructed-gap placements, polytope pairs in contact, flat/needle primitives, small colliders in front of big "
+          "faces) is converted to exact rationals and judged inside coqc by dist_cert (Checker/Narrow.v); its Coq soundness theorem (Props/C01.v, "
+          "over the reals, for arbitrary shape expressions) gives for that input exactly C01: a within tau of A, b within tau of B, "
+          "||a-b|-d| <= tau, no pair of points closer than d - tau, some pair within d + 3 tau, tau = 1e-5 L. Theorems about the Gallina model "
+          "of the loop itself (Model/JoltLoop.v: _distance_loop, calculate_closest_points, the driver), over the reals and for ARBITRARY sets "
+          "given through support mappings: the P/Q/Y row relation and v_len_sq = |dir|^2 are invariants of every execution; the Clipped exit "
+          "is sound; the duality-gap lower bound; the two classical GJK lemmas; the no-improvement exit reports the exact distance (partial: "
+          "under the simplex-solver hypotheses that C18 establishes). Tie model/code: the support points the implementation obtained in "
+          "iteration i are replayed through step i of the model, which must reproduce every search direction, the iteration count, the exit and "
+          "(d, a, b); a difference is excused only if the model's own discrete behaviour changes under ~1-10 ulp perturbations of the trace. "
+          "NOT proved: accuracy of the relative-progress exit in binary64 (DESIGN section 7). Known finding F-J2 (the Jolt simplex solver's "
+          "ill-conditioned classes reach the distance query), routed by replaying the trace and applying C18's exact predicates."),
+    design_ref="DESIGN.md section 5, C01; sections 2.3, 9",
+    technique="Coq-proven certificate checker evaluated by vm_compute on the implementation's outputs + Coq theorems about a Gallina model of the GJK loop tied to the code by support-trace replay",
     note=TB + "; harness/narrow.py parts() (collider spec -> shape expression) is trusted; witnesses are untrusted",
 )
 
